@@ -223,6 +223,7 @@ def native_dqn_target_replay(model):
 
 
 def unit_dqn(S):
+    S.default_replay = native_dqn_target_replay
     fnp = "lerax.algorithm.dqn:DQN.per_iteration"
     S.under_contract(fnp, "lerax.algorithm.dqn:DQN.iteration")
     ctx = Ctx()
